@@ -240,8 +240,12 @@ FK = FKEY.sort()
 
 
 def _fuse_key(sc):
-    """C09 (repaired in ad1496b): pieces are fused only when tag, haplotype and name all agree"""
-    return FK.mk(sc.tag.z, sc.haplotype.z, sc.name)
+    """C09 (repaired in ad1496b): pieces are fused only when tag and name agree and - for pieces without a tag, which are
+    filed by haplotype - the haplotype too; a tagged piece is filed by its tag whatever its haplotype, so the haplotype
+    is not part of its key (C10: names are unique within an output assembly)"""
+    S = TOpt(STR).sort()
+    tagged = z3.And(sc.tag.z != S.none, z3.Length(S.val(sc.tag.z)) > 0)
+    return FK.mk(sc.tag.z, z3.If(tagged, S.none, sc.haplotype.z), sc.name)
 
 
 def _fusion_post(v, b, e, o):
@@ -300,7 +304,7 @@ class _:
     # per-iteration postcondition)
     stmt_post = {(_norm_stmt("""
 build_scffld = hap_name_scaffold.setdefault(
-    (scffld.tag, scffld.haplotype, scffld.name),
+    (scffld.tag, hap, scffld.name),
     Scaffold(scffld.name, tag=scffld.tag, haplotype=scffld.haplotype, rank=scffld.rank,
              original_name=scffld.original_name, original_tags=scffld.original_tags),
 )"""), 0): lambda v, b, o: (lambda key, d0: [
